@@ -25,6 +25,7 @@ theorem replay_update_logs_gen (s r : Store) (pt sch : Levels) (tbls : List (Byt
     (hrlsn : r.hdr.nextLSN ≤ s.hdr.nextLSN)
     (table : Bytes) (t : Levels) (ht : (table, t) ∈ tbls) (schema : List FieldDef)
     (hsch : schemaOf sch table = some schema) (rowId : Nat) (cols : List String) (src : List Val)
+    (hnames : checkColumns schema cols = none)
     (c : LeafCell) (hc : c ∈ live t) (hk : c.key = rowId) (m : Vals) (buf : Bytes)
     (hdec : decodeTuple schema c.val [] = .ok m)
     (henc : encodeTuple schema ((cols.zip src).reverse ++ m) = .ok buf)
@@ -38,7 +39,7 @@ theorem replay_update_logs_gen (s r : Store) (pt sch : Levels) (tbls : List (Byt
       r'.hdr.nextFree = r.hdr.nextFree ∧ r'.hdr.lastKey = r.hdr.lastKey ∧
       r'.hdr.nextLSN + 1 = s'.hdr.nextLSN ∧ logs.length = 1 := by
   obtain ⟨s', l, d, hm, hcl, erun, hc', hlsn', hlk', _, hnf', _⟩ := update_cat h table t ht schema hsch rowId
-    cols src c hc hk m buf hdec henc hlen
+    cols src hnames c hc hk m buf hdec henc hlen
   have hany : l.cells.any (fun x => x.key == rowId) = true :=
     List.any_eq_true.mpr ⟨c, hcl, by simp [hk]⟩
   obtain ⟨r', e, hcr', hh, _⟩ := replay_update_record r pt sch tbls hr table t ht l d hm rowId
@@ -103,6 +104,7 @@ inductive LiveRunM (sch : Levels) : Store → List (Bytes × Levels) → List RS
       (t : Levels) (schema : List FieldDef) (buf : Bytes) (t' : Levels) (nf' : Nat)
       (ht : (table, t) ∈ tbls) (hsch : schemaOf sch table = some schema)
       (hcols : (colsOf schema cols).length = vals.length)
+      (hnames : checkColumns schema (colsOf schema cols) = none)
       (henc : encodeTuple schema ((colsOf schema cols).zip vals).reverse = .ok buf)
       (hlen : buf.length ≤ c_maxValueSize)
       (hins : insertAppend t (s.hdr.lastKey + 1) s.hdr.nextLSN buf s.hdr.nextFree = .ok (t', nf'))
@@ -144,9 +146,9 @@ theorem LiveRunM.append {sch : Levels} {s s1 s2 : Store} {tbls tbls1 tbls2 : Lis
   induction h1 with
   | nil s tbls => exact h2
   | same hs _ ih => exact .same hs (ih h2)
-  | ins table cols vals t schema buf t' nf' ht hsch hcols henc hlen hins hd' hl' hbig hrun _ ih =>
+  | ins table cols vals t schema buf t' nf' ht hsch hcols hnames henc hlen hins hd' hl' hbig hrun _ ih =>
     rw [List.cons_append, List.append_assoc]
-    exact .ins table cols vals t schema buf t' nf' ht hsch hcols henc hlen hins hd' hl' hbig hrun (ih h2)
+    exact .ins table cols vals t schema buf t' nf' ht hsch hcols hnames henc hlen hins hd' hl' hbig hrun (ih h2)
   | upd table rowId cols src t schema c m buf ht hsch hc hk hdec henc hlen hrun _ ih =>
     rw [List.cons_append, List.append_assoc]
     exact .upd table rowId cols src t schema c m buf ht hsch hc hk hdec henc hlen hrun (ih h2)
@@ -179,13 +181,13 @@ theorem replay_history_mixed_gen (sch : Levels) {s0 sN : Store} {tbls tblsN : Li
     exact ih pt r0 (h.of_same hs) hr hself
       (hf.of_hdr (by rw [hs.2]; exact Nat.le_refl _) (by rw [hs.2]; exact Nat.le_refl _))
       (by rw [hs.2]; exact e1) (by rw [hs.2]; exact e2) (by rw [hs.2]; exact e3)
-  | @ins s s1 s2 tbls tbls2 rest logs logs2 table cols vals t schema buf t' nf' ht hsch hcols henc hlen hins
+  | @ins s s1 s2 tbls tbls2 rest logs logs2 table cols vals t schema buf t' nf' ht hsch hcols hnames henc hlen hins
       hd' hl' hbig hrun _ ih =>
     intro pt r0 h hr hself hf e1 e2 e3
     obtain ⟨_, hIt, _, _, _⟩ := h.tree t (Cat.tb_mem ht)
     obtain ⟨s', ptF, logs', r', erun, hc', hrep, hcr', hselfF, _, hnf', hnfr, hlk', hlkr, hl, hcase⟩ :=
       replay_insert_logs_gen s r0 pt sch tbls h hr hself e1 e2 e3 table t ht cols vals schema buf
-        hsch hcols henc hlen t' nf' hins hd' hl' hbig (hf.root ht hIt)
+        hsch hcols hnames henc hlen t' nf' hins hd' hl' hbig (hf.root ht hIt)
         (hf.pos _ ht _ (rootOff_mem_offs t _ hIt))
     rw [hrun] at erun
     simp only [SRes.ok.injEq] at erun
@@ -199,8 +201,8 @@ theorem replay_history_mixed_gen (sch : Levels) {s0 sN : Store} {tbls tblsN : Li
       hrun _ ih =>
     intro pt r0 h hr hself hf e1 e2 e3
     obtain ⟨s', logs', r', erun, hc', hrep, hcr', hf', a1, a2, a3, a4, a5, _⟩ :=
-      replay_update_logs_gen s r0 pt sch tbls h hr hf e3 table t ht schema hsch rowId cols src c hc hk m buf
-        hdec henc hlen
+      replay_update_logs_gen s r0 pt sch tbls h hr hf e3 table t ht schema hsch rowId cols src
+        (update_ok_names h ht hsch hrun) c hc hk m buf hdec henc hlen
     rw [hrun] at erun
     simp only [SRes.ok.injEq] at erun
     obtain ⟨rfl, rfl⟩ := erun
@@ -208,7 +210,8 @@ theorem replay_history_mixed_gen (sch : Levels) {s0 sN : Store} {tbls tblsN : Li
     exact ⟨ptN, rN, by rw [replayAll_append hrep]; exact e, c⟩
   | @updAbsent s s1 s2 tbls tbls2 rest logs logs2 table rowId cols src t schema ht hsch habs hrun _ ih =>
     intro pt r0 h hr hself hf e1 e2 e3
-    obtain ⟨s', erun, hs, hc'⟩ := update_cat_absent h table t ht schema hsch rowId cols src habs
+    obtain ⟨s', erun, hs, hc'⟩ := update_cat_absent h table t ht schema hsch rowId cols src
+      (update_ok_names h ht hsch hrun) habs
     rw [hrun] at erun
     simp only [SRes.ok.injEq] at erun
     obtain ⟨rfl, rfl⟩ := erun
@@ -261,7 +264,7 @@ theorem history_mixed_st0 : ∃ sN ptN rN logs,
     rN.hdr.lastKey = sN.hdr.lastKey ∧ rN.hdr.nextLSN ≤ sN.hdr.nextLSN := by
   -- the insert
   obtain ⟨s1, ptF1, logs1, e1, hc1, hk1, hn1, hcase1⟩ := insert_refines st0 pt0 sch0 [(tname, t0)] cat0 tname t0
-    (by simp) [] [] [] [] (by decide) (by decide) rfl (by decide) t1 16384 rfl (by decide) (by decide)
+    (by simp) [] [] [] [] (by decide) (by decide) rfl rfl (by decide) t1 16384 rfl (by decide) (by decide)
     (by decide)
   have hst1 : setTable [(tname, t0)] tname t1 = [(tname, t1)] := by decide
   rw [hst1] at hc1
@@ -271,7 +274,7 @@ theorem history_mixed_st0 : ∃ sN ptN rN logs,
     · exact absurd (by decide) h
   have hmem1 : (tname, t1) ∈ [(tname, t1)] := List.mem_singleton.mpr rfl
   -- the update
-  obtain ⟨s2, l2, d2, _, _, e2, hc2, hl2, _⟩ := update_cat hc1 tname t1 hmem1 [] (by decide) 4 [] []
+  obtain ⟨s2, l2, d2, _, _, e2, hc2, hl2, _⟩ := update_cat hc1 tname t1 hmem1 [] (by decide) 4 [] [] rfl
     ⟨4, false, []⟩ (by decide) rfl [] [] rfl rfl (by decide)
   rw [hl1] at hc2 hl2
   have hst2 : setTable [(tname, t1)] tname (setVal t1 4 8 []) = [(tname, setVal t1 4 8 [])] := by decide
@@ -289,7 +292,7 @@ theorem history_mixed_st0 : ∃ sN ptN rN logs,
       (by rw [hl1, hst2]; exact run3)
   have run : LiveRunM sch0 st0 [(tname, t0)] [.ins tname [] [], .upd tname 4 [] [], .del tname 4] s3
       [(tname, tIUD)] (logs1 ++ (_ ++ (_ ++ []))) :=
-    LiveRunM.ins tname [] [] t0 [] [] t1 16384 (by simp) (by decide) (by decide) rfl (by decide) rfl (by decide)
+    LiveRunM.ins tname [] [] t0 [] [] t1 16384 (by simp) (by decide) (by decide) rfl rfl (by decide) rfl (by decide)
       (by decide) (by decide) e1 (by rw [hst1]; exact run2)
   obtain ⟨ptN, rN, e, c1, c2, _, _, c5, _, c7⟩ := replay_history_mixed sch0 run pt0 cat0 pt0_self freshM_st0
   refine ⟨s3, ptN, rN, _, run, ?_, e, c1, c2, by decide, by decide, c5, c7⟩
